@@ -37,6 +37,14 @@ for _st in STAGES:
     DIRECTED.append(dict(cfg=('core_maths', 3), kind='fit', stage=_st, P_obs=1, P_first=2, ipe=False, like_oth=2, ops=['pipe_other_like', 'pipe_same']))
     DIRECTED.append(dict(cfg=('osc_maths', 3), kind='fit', stage=_st, P_obs=1, P_first=1, ipe=True, ops=['pipe_other_basis', 'pipe_same']))
     DIRECTED.append(dict(cfg=('core_maths', 3), kind='fit', stage=_st, P_obs=2, P_first=2, ipe=True, ops=['pipe_other_basis', 'gen_other']))
+for _st in STAGES:
+    DIRECTED.append(dict(cfg=('core_maths', 3), kind='fit', stage=_st, P_obs=1, P_first=1, ipe=False, ipe_mode='mixed', ops=['pipe_same', 'pipe_same', 'restart:1']))
+    DIRECTED.append(dict(cfg=('core_maths', 4), kind='fit', stage=_st, P_obs=1, P_first=2, ipe=False, mock=True, ops=['gen_same_basis', 'pipe_same', 'pipe_same']))
+    DIRECTED.append(dict(cfg=('core_maths', 3), kind='fit', stage=_st, P_obs=2, P_first=2, ipe=False, mock=True, ops=['pipe_same', 'pipe_other_basis']))
+for _cfg in (('core_maths', 3), ('core_maths', 4)):
+    for _P in (1, 2):
+        DIRECTED.append(dict(cfg=_cfg, kind='gen', P_obs=_P, P_first=_P, ops=['gen_faulty_inproc']))
+        DIRECTED.append(dict(cfg=_cfg, kind='gen', P_obs=_P, P_first=_P, ops=['gen_faulty_inproc', 'gen_faulty_inproc']))
 DIRECTED.append(dict(cfg=('core_maths', 3), kind='fit', stage='test_all', P_obs=1, P_first=1, ipe=True, ops=['pipe_other_basis']))
 DIRECTED.append(dict(cfg=('core_maths', 4), kind='fit', stage='test_all', P_obs=1, P_first=1, ipe=True, ops=['pipe_other_basis', 'pipe_other_like']))
 
@@ -79,6 +87,9 @@ def draw_history(seed, i, quick, recipe=None):
     P_obs = rng.choice([1, 1, 2])
     P_obs = recipe.get('P_obs', P_obs)
     like_obs = dict(cls='Gauss', data_file='data.txt', run_name='obs', data_dir='user', fn_set=runname)
+    if recipe.get('mock', rng.random() < 0.2):
+        # a likelihood whose prediction does not guard against floating-point exceptions (sqrt of the model)
+        like_obs = dict(cls='Mock', nz=320, yfracerr=0.2, fn_set=runname)
     like_oth = rng.choice([dict(cls='Gauss', data_file='data.txt', run_name='oth', data_dir='user2', fn_set=runname),
                            dict(cls='Poisson', data_file='counts.txt', run_name='obs', data_dir='user3', fn_set=runname),
                            dict(cls='Gauss', data_file='data.txt', run_name='oth', data_dir='user', fn_set=runname)])
@@ -105,8 +116,8 @@ def draw_history(seed, i, quick, recipe=None):
     def cur():
         return segments[-1]['program']
 
-    def need_lib(rn, c):
-        for cc in (range(1, c + 1) if ipe else [c]):
+    def need_lib(rn, c, lower=False):
+        for cc in (range(1, c + 1) if (ipe or lower) else [c]):
             if (rn, cc) not in libs:
                 cur().append(['gen', dict(runname=rn, compl=cc)])
                 libs.add((rn, cc))
@@ -115,9 +126,15 @@ def draw_history(seed, i, quick, recipe=None):
         if name not in likes_here:
             cur().append(['like', dict(lk, name=name)])
             likes_here.add(name)
+    ipe_mode = recipe.get('ipe_mode') or ('all' if ipe else rng.choice(['none', 'none', 'mixed']))
+
+    def op_opts():
+        # ignore_previous_eqns is drawn per operation in 'mixed' mode: an earlier run may have used it, the observed one not
+        on = ipe if ipe_mode == 'all' else (ipe_mode == 'mixed' and rng.random() < 0.5)
+        return dict(FIT_OPTS, ignore_previous_eqns=True) if on else dict(FIT_OPTS)
     nops = rng.randint(0, 5)
     CODES = {'gen_other': 0.1, 'gen_same_basis': 0.3, 'gen_identical': 0.5, 'pipe_same': 0.6, 'pipe_other_like': 0.7, 'pipe_other_basis': 0.8,
-             'restart': 0.9, 'gen_faulty': 0.97}
+             'restart': 0.9, 'gen_faulty': 0.95, 'gen_faulty_inproc': 0.985}
     plan_ops = recipe.get('ops')
     for oi in range(len(plan_ops) if plan_ops is not None else nops):
         c = rng.random()
@@ -145,25 +162,40 @@ def draw_history(seed, i, quick, recipe=None):
             libs.add((runname, n))
             desc.append('gen %s/%d (identical)' % (runname, n))
         elif c < 0.67:
-            need_lib(runname, n)
+            o = op_opts()
+            need_lib(runname, n, lower=bool(o.get('ignore_previous_eqns')))
             need_like('Lobs', like_obs)
-            cur().extend(pipeline('Lobs', n, opts=topt))
-            desc.append('pipeline same likelihood')
+            cur().extend(pipeline('Lobs', n, opts=o))
+            desc.append('pipeline same likelihood' + (' (ipe)' if o.get('ignore_previous_eqns') else ''))
         elif c < 0.78:
-            need_lib(runname, n)
+            o = op_opts()
+            need_lib(runname, n, lower=bool(o.get('ignore_previous_eqns')))
             need_like('Loth', like_oth)
-            cur().extend(pipeline('Loth', n, opts=dict(topt, Niter_params=[3], Nconv_params=[2])))
-            desc.append('pipeline other likelihood %s/%s' % (like_oth['cls'], like_oth['data_dir']))
+            cur().extend(pipeline('Loth', n, opts=dict(o, Niter_params=[3], Nconv_params=[2])))
+            desc.append('pipeline other likelihood %s/%s' % (like_oth['cls'], like_oth['data_dir']) + (' (ipe)' if o.get('ignore_previous_eqns') else ''))
         elif c < 0.87:
-            need_lib(other_basis, n)
-            need_like('Lbas', dict(like_obs, run_name='bas', fn_set=other_basis))
-            cur().extend(pipeline('Lbas', n, opts=topt))
-            desc.append('pipeline other basis %s' % other_basis)
+            o = op_opts()
+            need_lib(other_basis, n, lower=bool(o.get('ignore_previous_eqns')))
+            need_like('Lbas', dict(like_obs, cls='Gauss', data_file='data.txt', data_dir='user', run_name='bas', fn_set=other_basis))
+            cur().extend(pipeline('Lbas', n, opts=o))
+            desc.append('pipeline other basis %s' % other_basis + (' (ipe)' if o.get('ignore_previous_eqns') else ''))
         elif c < 0.94:
             if cur():
                 segments.append(dict(P=forced_P or rng.choice([1, 2, 3]), program=[]))
                 likes_here = set()
                 desc.append('restart P=%d' % segments[-1]['P'])
+        elif c >= 0.97:
+            # an earlier generation IN THE SAME PROCESSES in which steps timed out (fault plan scoped to that one operation)
+            tgt = rng.choice([(runname, n), (runname, n), (runname, max(3, n - 1)), (other_basis, 3)])
+            if configs.nfun(configs.SHIPPED[tgt[0]], tgt[1]) > (300 if quick else 1000):
+                tgt = (runname, 3)
+            dens = rng.choice([0.1, 0.3, 0.7])
+            Pseg = segments[-1]['P']
+            pl = {str(r): {str(b): ['stmt', rng.randint(1, 14)] for b in range(1, 700) if rng.random() < dens} for r in range(Pseg)}
+            segments[-1].setdefault('op_plans', {})[str(len(cur()))] = pl
+            cur().append(['gen', dict(runname=tgt[0], compl=tgt[1])])
+            libs.add(tgt)
+            desc.append('gen %s/%d with timeouts, same processes' % tgt)
         else:
             # an earlier COMPLETED run of the identical generation in which many steps timed out (it takes a different
             # number of rounds and leaves other per-round files behind); own processes, then a restart
@@ -194,10 +226,12 @@ def draw_history(seed, i, quick, recipe=None):
         observed = dict(kind='gen', runname=runname, compl=n, P=P_obs, npseed=npseed)
     else:
         stage = recipe.get('stage') or rng.choice(STAGES)
-        need_lib(runname, n)
+        o_pre = op_opts()
+        okw = op_opts() if stage == 'test_all' else {}
+        need_lib(runname, n, lower=bool(o_pre.get('ignore_previous_eqns') or okw.get('ignore_previous_eqns')))
         need_like('Lobs', like_obs)
-        cur().extend(pipeline('Lobs', n, upto=stage, opts=topt))
-        od = 'user/fitting/output/output_obs'
+        cur().extend(pipeline('Lobs', n, upto=stage, opts=o_pre))
+        od = 'user/fitting/output/output_obs' if like_obs['cls'] != 'Mock' else 'pkg/esr/fitting/output/output_mock_320_0.2'
         pairs = [['pkg/esr/function_library/' + runname, 'snap/lib/' + runname]]
         from .jobs import STAGE_INPUTS
         for f in STAGE_INPUTS[stage]:
@@ -205,7 +239,6 @@ def draw_history(seed, i, quick, recipe=None):
         cur().append(['snapshot', dict(pairs=pairs)])
         cur().append(['npseed', dict(seed=npseed)])
         kw = dict(stage=stage, comp=n, like='Lobs')
-        okw = dict(topt) if stage == 'test_all' else {}
         kw.update(okw)
         cur().append(['fit', kw])
         observed = dict(kind='fit', stage=stage, runname=runname, compl=n, P=P_obs, like=like_obs, npseed=npseed, kw=okw)
